@@ -1,6 +1,7 @@
 """A debugging session on one worker, with the universal monitors evaluated on every reply that
 carries raw observations (`mon`)."""
 import json
+import os
 
 from . import elfutil
 from .common import Worker, WorkerDead, WorkerTimeout, PIE_BASE
@@ -19,10 +20,10 @@ class Crash(Exception):
 
 
 class Session:
-    def __init__(self, binary, verdict, extra_env=None, mon=MON_LIGHT, timeout=60):
+    def __init__(self, binary, verdict, extra_env=None, mon=MON_LIGHT, timeout=60, cpus=None):
         self.b = binary
         self.v = verdict
-        self.w = Worker(extra_env=extra_env)
+        self.w = Worker(extra_env=extra_env, cpus=cpus, stderr_path=os.environ.get('VERIF_WORKER_STDERR'))
         self.mon = mon
         self.timeout = timeout
         self.pid = None
@@ -121,7 +122,7 @@ class Session:
         tasks = m.get('tasks')
         if tasks is not None and self.started:
             v.count('mon_allstop_evals')
-            bad = [t for t in tasks if t['state'] not in ('t', 'Z', 'X')]
+            bad = [t for t in tasks if t['state'] not in ('t', 'Z', 'X', 'E')]
             if bad:
                 v.violation('allstop:task-not-stopped-at-prompt',
                             'a debuggee thread is not in tracing stop while the debugger reports a stop',
@@ -129,7 +130,7 @@ class Session:
             thr = m.get('thr')
             if thr is not None:
                 v.count('mon_threadlist_evals')
-                ktids = sorted(t['tid'] for t in tasks if t['state'] not in ('Z', 'X'))
+                ktids = sorted(t['tid'] for t in tasks if t['state'] not in ('Z', 'X', 'E'))
                 dtids = sorted(t['tid'] for t in thr)
                 if ktids != dtids:
                     v.violation('allstop:thread-list-differs-from-kernel',
